@@ -580,8 +580,20 @@ func checkMain(id, tier string) int {
 				ev.Coverage.TracesValidated++
 				if !traceAgrees(rf, nr) {
 					ev.Coverage.TraceMismatches++
-					fmt.Printf("ENGINE-MISMATCH property=%s run=%s inputs: %s\n    engine: outcome=%s observe=%v\n    native: result=%s failed=%v observe=%v msg=%s\n",
-						id, rf.Run, readable(rf.Inputs), rf.Outcome, rf.Observe, nr.Result, nr.Failed, nr.Observe, nr.Msg)
+					fmt.Printf("ENGINE-MISMATCH property=%s run=%s inputs: %s\n    engine: outcome=%s\n    native: result=%s failed=%v msg=%s\n",
+						id, rf.Run, readable(rf.Inputs), rf.Outcome, nr.Result, nr.Failed, nr.Msg)
+					for k := 0; k < len(rf.Observe) || k < len(nr.Observe); k++ {
+						var a, b string
+						if k < len(rf.Observe) {
+							a = rf.Observe[k]
+						}
+						if k < len(nr.Observe) {
+							b = nr.Observe[k]
+						}
+						if a != b {
+							fmt.Printf("    observation %d: engine %s | native %s\n", k, a, b)
+						}
+					}
 					machineryFailed = true
 				}
 				os.Remove(nr.File)
